@@ -584,10 +584,10 @@ func (st *State) call(x *ssa.Call) []*State {
 	}
 	// package functions with bodies
 	if f := cc.StaticCallee(); f != nil && f.Blocks != nil && f.Pkg == st.Fn.Pkg {
-		if isPurePredicate(f) {
+		if ip.isPurePredicate(f) {
 			var parts []string
 			for i, a := range args {
-				parts = append(parts, "⟦"+regForm(st.intOf(a, cc.Args[i].Type(), "p"))+"⟧")
+				parts = append(parts, "⟦"+ip.regForm(st.intOf(a, cc.Args[i].Type(), "p"))+"⟧")
 			}
 			st.vals[x] = Val{K: KBool, B: &Cond{Op: CPred, Key: "pure:" + f.Name() + "(" + strings.Join(parts, ",") + ")"}}
 			return []*State{st}
@@ -602,11 +602,11 @@ func (st *State) call(x *ssa.Call) []*State {
 	return []*State{st}
 }
 
-var pureCache = map[*ssa.Function]int{}
 
 // isPurePredicate: a package function whose parameters are all integers/booleans, whose single result
 // is a bool and whose body neither stores, nor calls anything but other pure predicates.
-func isPurePredicate(f *ssa.Function) bool {
+func (ip *Interp) isPurePredicate(f *ssa.Function) bool {
+	pureCache := ip.pureCache
 	if v, ok := pureCache[f]; ok {
 		return v == 1
 	}
@@ -636,7 +636,7 @@ func isPurePredicate(f *ssa.Function) bool {
 					}
 				case *ssa.Call:
 					callee := x.Call.StaticCallee()
-					if callee == nil || callee.Pkg != f.Pkg || !isPurePredicate(callee) {
+					if callee == nil || callee.Pkg != f.Pkg || !ip.isPurePredicate(callee) {
 						return false
 					}
 				}
@@ -1149,9 +1149,9 @@ func (st *State) instPure(k string, paramVal map[string]Val, inst string) string
 		j := strings.Index(rest, "⟧")
 		sb.WriteString(rest[:i])
 		inner := rest[i+len("⟦") : j]
-		if f, ok := pureForms[inner]; ok {
+		if f, ok := st.ip.pureForms[inner]; ok {
 			g := st.instForm(f, paramVal, inst)
-			sb.WriteString("⟦" + regForm(g) + "⟧")
+			sb.WriteString("⟦" + st.ip.regForm(g) + "⟧")
 		} else {
 			sb.WriteString("⟦" + inner + "⟧")
 		}
@@ -1160,12 +1160,10 @@ func (st *State) instPure(k string, paramVal map[string]Val, inst string) string
 	return sb.String()
 }
 
-// pureForms remembers the structured form behind each rendered form used in pure-predicate keys.
-var pureForms = map[string]lin.Form{}
-
-func regForm(f lin.Form) string {
+// regForm remembers the structured form behind each rendered form used in pure-predicate keys.
+func (ip *Interp) regForm(f lin.Form) string {
 	s := f.String()
-	pureForms[s] = f
+	ip.pureForms[s] = f
 	return s
 }
 
@@ -1176,7 +1174,8 @@ func (ip *Interp) failReq(st *State, rq Requirement, x *ssa.Call) {
 }
 
 // pureKeyForms returns the forms embedded in a pure-predicate key.
-func pureKeyForms(k string) []lin.Form {
+func (ip *Interp) pureKeyForms(k string) []lin.Form {
+	pureForms := ip.pureForms
 	var out []lin.Form
 	rest := k
 	for {
